@@ -1,8 +1,127 @@
 package engine
 
+import (
+	"bufio"
+	"encoding/json"
+	"fmt"
+	"os"
+	"os/exec"
+	"path/filepath"
+	"strings"
+)
+
 // tryReplay attempts to turn a failed obligation into a concrete failing input on the real code.
-// It returns "" when no replay harness exists for the obligation's function (the VIOLATION line
-// then ends with no-failing-input-found).
+// No generic model-to-input concretisation is built (see DESIGN.md 2.7): it returns "", and the VIOLATION
+// line then ends with no-failing-input-found. Failing inputs exist for the recorded findings, as Go tests
+// under known_findings_replays/ (run with `lhv replay <file>.go.txt`).
 func (p *Program) tryReplay(cfg *CheckConfig, f *OblResult, replayPath string) string {
 	return ""
+}
+
+// Replay re-decides what a replay file records, against the CURRENT tree.
+//   - <obligation>.json (written next to a VIOLATION line): the named obligation is regenerated from the current
+//     source of its function and solved again; the stored query is solved again too. Exit 1 iff the obligation
+//     still fails on the current tree.
+//   - <name>_test.go.txt (known_findings_replays/): a Go test, injected into the package named on its first line
+//     with go test -overlay (nothing is written under the repository); exit 1 iff the test fails.
+func Replay(p *Program, repoDir, path, work string) int {
+	if strings.HasSuffix(path, ".go.txt") || strings.HasSuffix(path, "_test.go") {
+		return replayGoTest(repoDir, path, work)
+	}
+	data, err := os.ReadFile(path)
+	if err != nil {
+		fmt.Println("replay:", err)
+		return 2
+	}
+	var rec struct {
+		Obligation string `json:"obligation"`
+		Function   string `json:"function"`
+		Property   string `json:"property"`
+		SMT2       string `json:"smt2"`
+		Status     string `json:"solver_status"`
+		Clause     string `json:"clause"`
+		At         string `json:"at"`
+	}
+	if err := json.Unmarshal(data, &rec); err != nil {
+		fmt.Println("replay:", err)
+		return 2
+	}
+	fmt.Printf("REPLAY obligation=%s\n  clause: %s\n  at: %s\n  recorded answer: %s\n", rec.Obligation, rec.Clause, rec.At, rec.Status)
+	if rec.SMT2 != "" {
+		r := Solve(work, "stored", rec.SMT2, 30, false)
+		fmt.Printf("  stored query solved again: %s (%s, %.2fs)\n", r.Status, r.Solver, r.Time)
+	}
+	fn := p.Funcs[rec.Function]
+	if fn == nil {
+		fmt.Println("  current tree: function not found (renamed or removed)")
+		return 2
+	}
+	cfg := &CheckConfig{Property: rec.Property, Tier: "quick", WorkDir: work, Timeout: 10, Jobs: 8}
+	rep := p.CheckFunction(fn, cfg)
+	if rep.Err != "" {
+		fmt.Println("  current tree: engine error:", rep.Err)
+		return 2
+	}
+	for _, r := range rep.Results {
+		if r.Obl.Name == rec.Obligation {
+			fmt.Printf("  current tree: %s (%s by %s)\n", r.Status, r.Res.Status, r.Res.Solver)
+			if r.OK {
+				return 0
+			}
+			return 1
+		}
+	}
+	fmt.Println("  current tree: no obligation of that name is generated any more (the code or the contract changed)")
+	return 2
+}
+
+func replayGoTest(repoDir, path, work string) int {
+	f, err := os.Open(path)
+	if err != nil {
+		fmt.Println("replay:", err)
+		return 2
+	}
+	sc := bufio.NewScanner(f)
+	sc.Buffer(make([]byte, 1<<20), 1<<20)
+	pkgDir, pkgName := "", ""
+	for sc.Scan() {
+		line := sc.Text()
+		if strings.HasPrefix(line, "package ") {
+			pkgName = strings.TrimSpace(strings.TrimPrefix(line, "package "))
+			break
+		}
+		if i := strings.Index(line, "luahelper-lsp/"); i >= 0 && pkgDir == "" {
+			pkgDir = strings.Fields(line[i:])[0]
+			pkgDir = strings.TrimRight(pkgDir, ".,;:)")
+		}
+	}
+	f.Close()
+	if pkgDir == "" {
+		// default locations by package clause
+		pkgDir = map[string]string{"langserver": "luahelper-lsp/langserver", "lexer": "luahelper-lsp/langserver/check/compiler/lexer",
+			"parser": "luahelper-lsp/langserver/check/compiler/parser", "check": "luahelper-lsp/langserver/check",
+			"common": "luahelper-lsp/langserver/check/common", "results": "luahelper-lsp/langserver/check/results",
+			"annotateparser": "luahelper-lsp/langserver/check/annotation/annotateparser", "lspcommon": "luahelper-lsp/langserver/lspcommon",
+			"codingconv": "luahelper-lsp/langserver/codingconv", "stringutil": "luahelper-lsp/langserver/stringutil"}[pkgName]
+	}
+	if pkgDir == "" {
+		fmt.Println("replay: cannot tell which package the test belongs to (first comment line should name the directory)")
+		return 2
+	}
+	abs, _ := filepath.Abs(path)
+	target := filepath.Join(repoDir, pkgDir, "zz_lhv_replay_test.go")
+	ov := filepath.Join(work, "overlay.json")
+	ovData, _ := json.Marshal(map[string]map[string]string{"Replace": {target: abs}})
+	_ = os.WriteFile(ov, ovData, 0o644)
+	cmd := exec.Command("go", "test", "-overlay", ov, "-vet=off", "-count=1", "-timeout", "120s", "-run", "Replay|Seed|seed|ZZ", "./"+strings.TrimPrefix(pkgDir, "luahelper-lsp/"))
+	cmd.Dir = filepath.Join(repoDir, "luahelper-lsp")
+	cmd.Env = append(os.Environ(), "GOFLAGS=-mod=mod", "GOPROXY=off", "GOSUMDB=off", "GOTOOLCHAIN=local")
+	out, err := cmd.CombinedOutput()
+	fmt.Print(string(out))
+	if err != nil {
+		fmt.Println("REPLAY result=test-fails-on-the-current-tree")
+		return 1
+	}
+	fmt.Println("REPLAY result=test-passes-on-the-current-tree")
+	return 0
 }
